@@ -59,6 +59,20 @@ func Build(race bool) string {
 		bin += "-race"
 		args = []string{"build", "-race", "-tags", "verif", "-o"}
 	}
+	// VERIF_REPO (debugging / background sweeps): build against another
+	// checkout of polyform than /repo. Registered checks never set it.
+	if alt := os.Getenv("VERIF_REPO"); alt != "" && alt != RepoDir {
+		mod, err := os.ReadFile(filepath.Join(VerifDir, "go.mod"))
+		if err != nil {
+			Trouble("%v", err)
+		}
+		os.MkdirAll(filepath.Join(VerifDir, ".work"), 0o755)
+		altMod := filepath.Join(VerifDir, ".work", "go.alt.mod")
+		os.WriteFile(altMod, []byte(strings.Replace(string(mod), "=> "+RepoDir, "=> "+alt, 1)), 0o644)
+		sum, _ := os.ReadFile(filepath.Join(VerifDir, "go.sum"))
+		os.WriteFile(filepath.Join(VerifDir, ".work", "go.alt.sum"), sum, 0o644)
+		args = append([]string{args[0], "-modfile=" + altMod}, args[1:]...)
+	}
 	args = append(args, bin, "./cmd/simrun")
 	cmd := exec.Command("go", args...)
 	cmd.Dir = VerifDir
